@@ -33,6 +33,12 @@ func init() {
 	register("C10", "G-LEVELS", ruleGLevels)
 	register("C10", "G-ABBREV", ruleGAbbrev)
 
+	register("C01", "A-DISPATCH", ruleADispatch)
+	register("C01", "A-ELIDE", ruleAElide)
+	register("C01", "X-TOTAL", ruleXTotal)
+	register("C01", "N-OWN", ruleNOwn)
+	register("C01", "G-ABBREV", ruleGAbbrev)
+
 	register("C13", "N-OWN", ruleNOwn)
 	register("C13", "N-RESTORE", ruleNRestore)
 	register("C13", "N-PEER", ruleNPeer)
